@@ -702,6 +702,16 @@ impl KotoVm {
 
     /// Makes a KIterator that iterates over the provided value's contents
     pub fn make_iterator(&mut self, value: KValue) -> Result<KIterator> {
+        // The result of `@iterator` can itself implement `@iterator`,
+        // the nesting is limited so that a map that returns itself can't recurse endlessly.
+        self.make_iterator_with_nesting_limit(value, 16)
+    }
+
+    fn make_iterator_with_nesting_limit(
+        &mut self,
+        value: KValue,
+        nesting_limit: usize,
+    ) -> Result<KIterator> {
         use KValue::*;
 
         match value {
@@ -709,10 +719,13 @@ impl KotoVm {
                 KIterator::with_meta_next(self.spawn_shared_vm(), value)
             }
             Map(ref m) if m.contains_meta_key(&UnaryOp::Iterator.into()) => {
+                if nesting_limit == 0 {
+                    return runtime_error!("too many nested @iterator calls");
+                }
                 // If the value implements @iterator,
                 // first evaluate @iterator and then make an iterator from the result
                 let iterator_call_result = self.run_unary_op(UnaryOp::Iterator, value)?;
-                self.make_iterator(iterator_call_result)
+                self.make_iterator_with_nesting_limit(iterator_call_result, nesting_limit - 1)
             }
             Iterator(i) => Ok(i),
             Range(r) => KIterator::with_range(r),
